@@ -434,3 +434,91 @@ def r13_index_loop(toks, k, log, where):
     tail = syn("    vx_i += 1;\n        ")
     log.append(("R13", where, re.sub(r"\s+", " ", untok(toks[kwi:ob + 1])), re.sub(r"\s+", " ", untok(head) + "{" + untok(first)) + " ... vx_i += 1; }"))
     return toks[:kwi] + head + [toks[ob]] + first + body + tail + toks[close:]
+
+
+def _pure_args(toks, where, what):
+    for x in toks:
+        if x.kind == "punct" and x.text in ("=", "+=", "-=", "*=", "?", "|=", "&="):
+            raise Unsupported("%s with side effect in %s" % (what, where))
+        if x.kind == "ident" and x.text in ("mut", "push", "next", "insert", "remove", "pop", "take"):
+            raise Unsupported("%s with side effect in %s" % (what, where))
+
+
+def r6_opaque_text(toks, log, where):
+    """R6: error/label text is dropped: format!(..) / String::from("lit") / "lit".to_string()|.to_owned()|.into() ->
+       vx_opaque_string(); std::io::Error::new(kind, text) / std::io::Error::other(text) -> vx_io_error()."""
+    out, k = [], 0
+    n = len(toks)
+    while k < n:
+        t = toks[k]
+        # format!( .. )
+        if t.kind == "ident" and t.text == "format":
+            j = _next_code(toks, k + 1)
+            if j < n and toks[j].text == "!":
+                j2 = _next_code(toks, j + 1)
+                e = match_close(toks, j2)
+                _pure_args(toks[j2 + 1:e], where, "format!")
+                log.append(("R6", where, re.sub(r"\s+", " ", untok(toks[k:e + 1]))[:100], "vx_opaque_string()"))
+                s_ = syn("vx_opaque_string()")
+                s_[0].start = t.start
+                out.extend(s_)
+                k = e + 1
+                continue
+        # String::from("lit")
+        if t.kind == "ident" and t.text == "String":
+            j = _next_code(toks, k + 1)
+            if j < n and toks[j].text == "::":
+                j2 = _next_code(toks, j + 1)
+                if j2 < n and toks[j2].text == "from":
+                    j3 = _next_code(toks, j2 + 1)
+                    if j3 < n and toks[j3].text == "(":
+                        e = match_close(toks, j3)
+                        inner = [x for x in toks[j3 + 1:e] if _is_code(x) and x.text != ","]
+                        if len(inner) == 1 and inner[0].kind in ("str", "rawstr"):
+                            log.append(("R6", where, re.sub(r"\s+", " ", untok(toks[k:e + 1]))[:100], "vx_opaque_string()"))
+                            s_ = syn("vx_opaque_string()")
+                            s_[0].start = t.start
+                            out.extend(s_)
+                            k = e + 1
+                            continue
+        # "lit".to_string() / .to_owned() / .into()
+        if t.kind in ("str", "rawstr"):
+            j = _next_code(toks, k + 1)
+            if j < n and toks[j].text == ".":
+                j2 = _next_code(toks, j + 1)
+                if j2 < n and toks[j2].text in ("to_string", "to_owned"):
+                    j3 = _next_code(toks, j2 + 1)
+                    if j3 < n and toks[j3].text == "(":
+                        e = match_close(toks, j3)
+                        log.append(("R6", where, untok(toks[k:e + 1])[:100], "vx_opaque_string()"))
+                        s_ = syn("vx_opaque_string()")
+                        s_[0].start = t.start
+                        out.extend(s_)
+                        k = e + 1
+                        continue
+        # std::io::Error::new(..) / std::io::Error::other(..)
+        if t.kind == "ident" and t.text == "std":
+            seq = []
+            j = k
+            for want in ("std", "::", "io", "::", "Error", "::"):
+                if j < n and toks[j].text == want:
+                    seq.append(j)
+                    j = _next_code(toks, j + 1)
+                else:
+                    seq = None
+                    break
+            if seq is not None and j < n and toks[j].text in ("new", "other"):
+                j3 = _next_code(toks, j + 1)
+                if j3 < n and toks[j3].text == "(":
+                    e = match_close(toks, j3)
+                    inner = toks[j3 + 1:e]
+                    _pure_args([x for x in inner if not (x.kind == "ident" and x.text == "format")], where, "std::io::Error::new")
+                    log.append(("R6", where, re.sub(r"\s+", " ", untok(toks[k:e + 1]))[:100], "vx_io_error()"))
+                    s_ = syn("vx_io_error()")
+                    s_[0].start = t.start
+                    out.extend(s_)
+                    k = e + 1
+                    continue
+        out.append(t)
+        k += 1
+    return out
